@@ -737,7 +737,13 @@ class _ManyToOneDP(_DependencyProcessor):
                     [(child_action, after_save), (after_save, save_parent)]
                 )
             else:
-                uow.dependencies.update([(after_save, save_parent)])
+                # the parent row no longer refers to the child row that is
+                # being deleted: it has to be UPDATEd before that DELETE,
+                # as (parent_saves, child_deletes) in
+                # per_property_dependencies()
+                uow.dependencies.update(
+                    [(after_save, save_parent), (save_parent, child_action)]
+                )
 
         else:
             if childisdelete:
